@@ -436,3 +436,56 @@ def grid_sweeps(n_quick, n_thorough):
                            "ell": ell, "prj": prj, "defaults": False, "num": "float"}
                 i += 1
     return enum
+
+
+# ------------------------------------------------------------------------------------------------ quasi-random fill (S.fill)
+
+def _u_prj(u, u2):
+    """utm (half), isg (an eighth), otherwise a tidy custom projection from the two coordinates."""
+    if u < 0.5:
+        return "utm"
+    if u < 0.62:
+        return "isg"
+    zw, r = S.u_pick((u - 0.62) / 0.38, [2, 3, 6, 8])
+    return {"fe": [0.0, 200000.0, 500000.0][min(int(r * 3), 2)], "fn": 10000000.0, "k0": 0.999 + 0.001 * u2, "zw": zw,
+            "cm1": -180.0 + zw / 2.0}
+
+
+def geo_fill(n_quick, n_thorough, salt=111):
+    """Latitude x longitude (automatic zone, a third) or latitude x zone x offset of -30..30 deg from its meridian x ellipsoid x projection."""
+    def build(u):
+        lat = -80.0 + 164.0 * u[0]
+        ell = S.u_ellipsoid(u[2], u[3])
+        prj = _u_prj(u[4], u[5])
+        if prj == "isg" and u[3] < 0.75:
+            ell = "ans"
+        base = {"kind": "float", "kind2": "float", "num": "float", "defaults": False, "ell": ell, "prj": prj, "lat": lat}
+        if u[6] < 1.0 / 3.0:
+            lo, hi = auto_window(prj)[0]
+            return dict(base, lon=min(lo + (hi - lo) * u[1], math.nextafter(hi, -math.inf)), zone=0)
+        zs = [z for z in zones_of(prj) if -150.0 < cm_of(prj, z) < 150.0]
+        zone, r = S.u_pick((u[6] - 1.0 / 3.0) * 1.5, zs)
+        return dict(base, lon=cm_of(prj, zone) - 30.0 + 60.0 * u[1], zone=zone)
+    return S.fill(salt, 7, build, n_quick, n_thorough)
+
+
+def grid_fill(n_quick, n_thorough, salt=222):
+    """Zone x hemisphere x northing (equator .. band limit) x easting (half within 400 km, half within 3 000 km of the false easting)
+    x ellipsoid x projection."""
+    def build(u):
+        ell = S.u_ellipsoid(u[2], u[3])
+        prj = _u_prj(u[4], u[5])
+        fe, fn, k0, zw, cm1, kind = S.projection_params(prj)
+        a, invf = S.ellipsoid_params(ell)
+        zs = zones_of(prj)
+        zone, r = S.u_pick(u[6], zs)
+        south = r < 0.5
+        r = (r * 2) % 1.0
+        ymax = abs(meridian_arc(-80.0 if south else 84.0, a, invf)) * k0
+        if south:
+            ymax = min(ymax, fn)
+        xmax = 400000.0 if r < 0.5 else 3.0e6
+        y, x = u[0] * ymax, (u[1] * 2 - 1) * xmax
+        return {"zone": zone, "east": fe + x, "north": (fn - y) if south else y, "hemi": "south" if south else "north",
+                "ell": ell, "prj": prj, "defaults": False, "num": "float"}
+    return S.fill(salt, 7, build, n_quick, n_thorough)
